@@ -10,7 +10,7 @@ cd $W || exit 2
 git diff -- src > $D/patch.diff
 cp demo.py $D/demo.py; cp NOTES.md $D/NOTES.md 2>/dev/null
 echo "== demo with change"; PYTHONPATH=$W/src /venv/bin/python demo.py >/tmp/seed/$P.with.log 2>&1; WITH=$?; tail -3 /tmp/seed/$P.with.log
-git stash -q; echo "== demo without change"; PYTHONPATH=$W/src /venv/bin/python demo.py >/tmp/seed/$P.without.log 2>&1; WITHOUT=$?; tail -2 /tmp/seed/$P.without.log; git stash pop -q
+git apply -R $D/patch.diff; echo "== demo without change"; PYTHONPATH=$W/src /venv/bin/python demo.py >/tmp/seed/$P.without.log 2>&1; WITHOUT=$?; tail -2 /tmp/seed/$P.without.log; git apply $D/patch.diff
 echo "demo exit with=$WITH without=$WITHOUT"
 echo "== tests with change"; PYTHONPATH=$W/src /venv/bin/python -m pytest -q -p no:cacheprovider --timeout=900 --continue-on-collection-errors 2>&1 | tail -1 | tee /tmp/seed/$P.tests.log
 cd /verif
